@@ -50,10 +50,10 @@ Print Assumptions C16_cert_signed_region_inj.
    are exactly the encoding of those fields (everything before the signature); the CA key decodes
    and its signature check on those bytes succeeds; key id and principals are UTF-8; type is user
    or host and the options/extensions decode. *)
-Theorem C16_cert_import_iff : forall sigok pubkey_ok keyfields_ok addrs_ok cu blob ci,
+Theorem C16_cert_import_iff : forall sigok pubkey_ok keyfields_ok addrs_ok blob ci,
   bytes_ok blob = true ->
-  (cert_import sigok pubkey_ok keyfields_ok addrs_ok cu blob = ROk ci <->
-   cert_spec sigok pubkey_ok keyfields_ok addrs_ok cu blob ci).
+  (cert_import sigok pubkey_ok keyfields_ok addrs_ok blob = ROk ci <->
+   cert_spec sigok pubkey_ok keyfields_ok addrs_ok blob ci).
 Proof. exact cert_import_iff. Qed.
 Print Assumptions C16_cert_import_iff.
 
@@ -72,10 +72,10 @@ Print Assumptions C16_validate_iff.
 
 (* import + validate: accepted <=> CA signature over the exact contents /\ type /\ window /\
    principal (and the well-formedness conditions of cert_spec, which include the options). *)
-Theorem C16_cert_accept_iff : forall sigok pubkey_ok keyfields_ok addrs_ok cu blob want principal now,
+Theorem C16_cert_accept_iff : forall sigok pubkey_ok keyfields_ok addrs_ok blob want principal now,
   bytes_ok blob = true ->
-  (cert_accept sigok pubkey_ok keyfields_ok addrs_ok cu blob want principal now = true <->
-   exists ci, cert_spec sigok pubkey_ok keyfields_ok addrs_ok cu blob ci /\
+  (cert_accept sigok pubkey_ok keyfields_ok addrs_ok blob want principal now = true <->
+   exists ci, cert_spec sigok pubkey_ok keyfields_ok addrs_ok blob ci /\
      (want = CERT_TYPE_ANY \/ want = cf_type (ci_fields ci)) /\
      cf_va (ci_fields ci) <= now < cf_vb (ci_fields ci) /\
      match principal with
@@ -87,41 +87,38 @@ Print Assumptions C16_cert_accept_iff.
 
 (* Every critical option of an imported certificate is understood: the critical-options field is
    a sequence of (name, data) pairs, each name is in the table for the certificate type (none for
-   host certificates) and its data is well-formed for that option.  Holds for both variants of
-   the unknown-extension handling. *)
-Theorem C16_critical_options_understood : forall addrs_ok cu typ o e l,
-  bytes_ok o = true -> cert_options addrs_ok cu typ o e = ROk l ->
+   host certificates) and its data is well-formed for that option. *)
+Theorem C16_critical_options_understood : forall addrs_ok typ o e l,
+  bytes_ok o = true -> cert_options addrs_ok typ o e = ROk l ->
   exists pairs lo, o = enc_pairs pairs /\ spec_options addrs_ok (known_critical typ) true pairs = Some lo /\
     Forall (fun p => exists k v, assoc (fst p) (known_critical typ) = Some k /\
                                  dec_optval addrs_ok k (snd p) = Some v) pairs.
 Proof. exact cert_options_critical_understood. Qed.
 Print Assumptions C16_critical_options_understood.
 
-(* When the parser consumes the data of unknown options (critical mode always errors first, so
-   this concerns extensions of a repaired parser), decoding = walking the (name, data) pairs. *)
-Theorem C16_options_follow_pairs : forall addrs_ok cu known critical p l,
-  critical = true \/ cu = true -> bytes_ok p = true ->
-  (dec_options addrs_ok cu (length p) known critical p = ROk l <->
+(* Options AND extensions are read as (name, data) pairs (all byte strings, both modes): decoding
+   succeeds exactly when the field is a sequence of pairs, and the result is the walk over those
+   pairs in which a known name must carry well-formed data and an unknown name is an error when
+   critical and is skipped together with its data otherwise.  So an extension is granted only if
+   a pair with that NAME is in the signed field. *)
+Theorem C16_options_follow_pairs : forall addrs_ok known critical p l, bytes_ok p = true ->
+  (dec_options addrs_ok (length p) known critical p = ROk l <->
    exists pairs, p = enc_pairs pairs /\ Forall wf_pair pairs /\
                  spec_options addrs_ok known critical pairs = Some l).
-Proof.
-  intros addrs_ok cu known critical p l Hm Hok. split.
-  - apply dec_options_pairs_sound; assumption.
-  - intros (pairs & -> & Hwf & Hs). apply dec_options_pairs_complete; auto.
-Qed.
+Proof. exact dec_options_pairs_iff. Qed.
 Print Assumptions C16_options_follow_pairs.
 
-(* The code as found (unknown extension data is NOT consumed) does not follow the pairs: the data
-   of an unknown extension can be read as the name of a known extension. *)
-Theorem C16_extensions_follow_pairs_refuted :
-  exists pairs l, dec_options (fun _ => true) false 100 user_extension_kinds false (enc_pairs pairs) = ROk l /\
+(* The parser before /repo commit d13f6e7 (dec_options_old: unknown extension data NOT consumed)
+   did not follow the pairs: the data of an unknown extension was read as a known extension name. *)
+Theorem C16_old_extensions_follow_pairs_refuted :
+  exists pairs l, dec_options_old (fun _ => true) 100 user_extension_kinds false (enc_pairs pairs) = ROk l /\
                   In (N_permit_pty, OTrue) l /\ ~ In N_permit_pty (map fst pairs).
 Proof. exists quirk_pairs. exact extensions_quirk. Qed.
-Print Assumptions C16_extensions_follow_pairs_refuted.
+Print Assumptions C16_old_extensions_follow_pairs_refuted.
 
 (* Parsing loops never report out-of-fuel. *)
-Theorem C16_import_total : forall sigok pubkey_ok keyfields_ok addrs_ok cu blob,
-  cert_import sigok pubkey_ok keyfields_ok addrs_ok cu blob <> RFuel.
+Theorem C16_import_total : forall sigok pubkey_ok keyfields_ok addrs_ok blob,
+  cert_import sigok pubkey_ok keyfields_ok addrs_ok blob <> RFuel.
 Proof. exact cert_import_no_fuel. Qed.
 Print Assumptions C16_import_total.
 
@@ -146,14 +143,20 @@ Print Assumptions C16_sshsig_signed_data.
    signer (an importable certificate's subject key, else a bare public key) signed the data built
    from THIS message, the namespace and hash named in the blob, and the allowed-signers entries
    authorise either that key for (principal, namespace, now) or - for a certificate - its CA
-   through a cert-authority entry together with cert.validate(want, principal) at now. *)
+   through a cert-authority entry together with cert.validate(CERT_TYPE_USER, principal) at now. *)
 Theorem C16_sshsig_accept_iff :
-  forall sigok pubkey_ok keyfields_ok addrs_ok cu hash want msg ih raw principal entries now,
+  forall sigok pubkey_ok keyfields_ok addrs_ok hash msg ih raw principal entries now,
   bytes_ok raw = true ->
-  (sshsig_validate sigok pubkey_ok keyfields_ok addrs_ok cu hash want msg ih raw principal entries now = SAccept <->
-   sshsig_spec sigok pubkey_ok keyfields_ok addrs_ok cu hash want msg ih raw principal entries now).
-Proof. exact sshsig_accept_iff. Qed.
+  (sshsig_validate sigok pubkey_ok keyfields_ok addrs_ok hash msg ih raw principal entries now = SAccept <->
+   sshsig_spec sigok pubkey_ok keyfields_ok addrs_ok hash CERT_TYPE_USER msg ih raw principal entries now).
+Proof. exact sshsig_user_accept_iff. Qed.
 Print Assumptions C16_sshsig_accept_iff.
+
+Theorem C16_sshsig_total :
+  forall sigok pubkey_ok keyfields_ok addrs_ok hash msg ih raw principal entries now,
+  sshsig_validate sigok pubkey_ok keyfields_ok addrs_ok hash msg ih raw principal entries now <> SFuel.
+Proof. exact sshsig_user_no_fuel. Qed.
+Print Assumptions C16_sshsig_total.
 
 (* An allowed-signers decision is the existence of an entry of the right kind with the same key
    whose principal patterns, namespaces and validity window match. *)
@@ -169,31 +172,33 @@ Proof.
 Qed.
 Print Assumptions C16_allowed_signers_iff.
 
-(* Acceptance through a cert-authority entry implies the certificate passed validate(want,
-   principal) now: with want = USER the signer's certificate is a user certificate. *)
-Theorem C16_sshsig_ca_path_checks_cert :
-  forall sigok pubkey_ok keyfields_ok addrs_ok cu hash want msg ih raw principal entries now,
+(* The certificate type matches the use: an SSHSIG accepted although the signer's own key is not
+   listed (i.e. through a cert-authority entry) was made with a USER certificate that passed
+   validate now: valid_after <= now < valid_before and the principal is listed or none are. *)
+Theorem C16_sshsig_cert_type_matches_use :
+  forall sigok pubkey_ok keyfields_ok addrs_ok hash msg ih raw principal entries now,
   bytes_ok raw = true ->
-  sshsig_validate sigok pubkey_ok keyfields_ok addrs_ok cu hash want msg ih raw principal entries now = SAccept ->
+  sshsig_validate sigok pubkey_ok keyfields_ok addrs_ok hash msg ih raw principal entries now = SAccept ->
   forall pub nsb rsv hname sig, raw = enc_sshsig pub nsb rsv hname sig ->
     zlen pub < 2 ^ 32 -> zlen nsb < 2 ^ 32 -> zlen rsv < 2 ^ 32 -> zlen hname < 2 ^ 32 -> zlen sig < 2 ^ 32 ->
-  forall ci ns, cert_import sigok pubkey_ok keyfields_ok addrs_ok cu pub = ROk ci -> utf8_decode nsb = Some ns ->
+  forall ci ns, cert_import sigok pubkey_ok keyfields_ok addrs_ok pub = ROk ci -> utf8_decode nsb = Some ns ->
     as_validate entries (key_blob (ci_kalg ci) (cf_key (ci_fields ci))) principal ns now false = false ->
-    (want = CERT_TYPE_ANY \/ want = cf_type (ci_fields ci)) /\
+    cf_type (ci_fields ci) = CERT_TYPE_USER /\
     cf_va (ci_fields ci) <= now < cf_vb (ci_fields ci) /\
     (ci_principals ci = [] \/ In principal (ci_principals ci)).
-Proof. exact sshsig_ca_path_cert_checked. Qed.
-Print Assumptions C16_sshsig_ca_path_checks_cert.
+Proof. exact sshsig_ca_path_user_cert. Qed.
+Print Assumptions C16_sshsig_cert_type_matches_use.
 
-(* The code as found passes CERT_TYPE_ANY: a HOST certificate is then accepted for SSHSIG
-   (witness with trivially-true crypto); with CERT_TYPE_USER the same input is rejected. *)
-Theorem C16_sshsig_cert_type_matches_use_refuted :
+(* The code before /repo commit 0617eca passed CERT_TYPE_ANY (sshsig_validate_old): a HOST
+   certificate was accepted for SSHSIG (witness with trivially-true crypto); the model of record
+   rejects the same input. *)
+Theorem C16_old_sshsig_cert_type_matches_use_refuted :
   exists sigok pubkey_ok keyfields_ok addrs_ok hash raw principal entries now ci,
-    sshsig_validate sigok pubkey_ok keyfields_ok addrs_ok false hash CERT_TYPE_ANY [] false raw principal entries now = SAccept /\
+    sshsig_validate_old sigok pubkey_ok keyfields_ok addrs_ok hash [] false raw principal entries now = SAccept /\
     (exists pub nsb rsv hname sig, raw = enc_sshsig pub nsb rsv hname sig /\
-       cert_import sigok pubkey_ok keyfields_ok addrs_ok false pub = ROk ci) /\
+       cert_import sigok pubkey_ok keyfields_ok addrs_ok pub = ROk ci) /\
     cf_type (ci_fields ci) = CERT_TYPE_HOST /\
-    sshsig_validate sigok pubkey_ok keyfields_ok addrs_ok false hash CERT_TYPE_USER [] false raw principal entries now = SReject.
+    sshsig_validate sigok pubkey_ok keyfields_ok addrs_ok hash [] false raw principal entries now = SReject.
 Proof.
   exists (fun _ _ _ => true), (fun _ => true), (fun _ _ => true), (fun _ => true), (fun _ _ => []),
     w_raw, [97], [w_entry], 50.
@@ -201,7 +206,7 @@ Proof.
   - exists (enc_cert w_fields [7]), [102], [], N_sha512, [8]. split; [reflexivity|]. vm_compute. reflexivity.
   - split; [reflexivity | exact sshsig_host_cert_user].
 Qed.
-Print Assumptions C16_sshsig_cert_type_matches_use_refuted.
+Print Assumptions C16_old_sshsig_cert_type_matches_use_refuted.
 
 (* --- non-vacuity ------------------------------------------------------------------------------ *)
 
@@ -212,17 +217,17 @@ Proof. vm_compute. reflexivity. Qed.
    validating one second after valid_before *)
 Example C16_cert_accept_example :
   let blob := enc_cert w_fields [7] in
-  cert_accept (fun _ _ _ => true) (fun _ => true) (fun _ _ => true) (fun _ => true) false blob 2 None 99 = true /\
-  cert_accept (fun _ _ _ => true) (fun _ => true) (fun _ _ => true) (fun _ => true) false blob 2 None 100 = false /\
-  cert_accept (fun _ _ _ => true) (fun _ => true) (fun _ _ => true) (fun _ => true) false blob 1 None 99 = false /\
-  cert_accept (fun _ _ _ => false) (fun _ => true) (fun _ _ => true) (fun _ => true) false blob 2 None 99 = false.
+  cert_accept (fun _ _ _ => true) (fun _ => true) (fun _ _ => true) (fun _ => true) blob 2 None 99 = true /\
+  cert_accept (fun _ _ _ => true) (fun _ => true) (fun _ _ => true) (fun _ => true) blob 2 None 100 = false /\
+  cert_accept (fun _ _ _ => true) (fun _ => true) (fun _ _ => true) (fun _ => true) blob 1 None 99 = false /\
+  cert_accept (fun _ _ _ => false) (fun _ => true) (fun _ _ => true) (fun _ => true) blob 2 None 99 = false.
 Proof. vm_compute. repeat split; reflexivity. Qed.
 
 Example C16_cert_spec_example :
-  exists ci, cert_spec (fun _ _ _ => true) (fun _ => true) (fun _ _ => true) (fun _ => true) false
+  exists ci, cert_spec (fun _ _ _ => true) (fun _ => true) (fun _ _ => true) (fun _ => true)
                        (enc_cert w_fields [7]) ci.
 Proof.
-  destruct (cert_import (fun _ _ _ => true) (fun _ => true) (fun _ _ => true) (fun _ => true) false
+  destruct (cert_import (fun _ _ _ => true) (fun _ => true) (fun _ _ => true) (fun _ => true)
                         (enc_cert w_fields [7])) as [ci| |] eqn:E; try (vm_compute in E; discriminate).
   exists ci. apply cert_import_iff; [vm_compute; reflexivity | exact E].
 Qed.
